@@ -12,7 +12,7 @@ class QParseError(Exception):
 KEYWORDS = {
     "OR", "AND", "NOT", "SW", "EW", "CT", "WM", "NSW", "NEW", "NCT", "CSEQ", "CSSW", "CSEW", "CSCT", "NCSSW", "NCSEW", "NCSCT",
     "RE", "NRE", "CIDR", "NCIDR", "FEQ", "FSW", "FEW", "FCT", "ISNULL", "EXISTS", "NOTEXISTS", "IN", "ALLOF", "KW", "KWN", "KWRE",
-    "TRUE", "FALSE", "TS",
+    "TRUE", "FALSE", "TS", "QE",
 }
 STR_OPS = {"SW": (False, "sw", False), "EW": (False, "ew", False), "CT": (False, "ct", False), "WM": (False, "eq", False),
            "NSW": (False, "sw", True), "NEW": (False, "ew", True), "NCT": (False, "ct", True),
@@ -86,7 +86,7 @@ def tokenize(q, k):
             toks.append(("re", ("".join(out), tuple(fl)), i))
             i = j
             continue
-        if c == "<" and toks and toks[-1][0] == "kw" and toks[-1][1] in ("CIDR", "NCIDR"):
+        if c == "<" and toks and toks[-1][0] == "kw" and toks[-1][1] in ("CIDR", "NCIDR", "QE"):
             j = q.find(">", i)
             if j < 0:
                 raise QParseError(f"unterminated payload at {i}")
@@ -149,7 +149,7 @@ class Parser:
             return True
         if (k, v) == self.not_tok or (k, v) == ("sym", "("):
             return True
-        return k == "kw" and v in ("EXISTS", "NOTEXISTS", "KW", "KWN", "KWRE", "TS")
+        return k == "kw" and v in ("EXISTS", "NOTEXISTS", "KW", "KWN", "KWRE", "TS", "QE")
 
     def parse(self):
         f = self.expr(0)
@@ -236,6 +236,16 @@ class Parser:
                 self.next()
                 a = F.a_exists(self.field())
                 return a if v == "EXISTS" else F.NOT(a)
+            if v == "QE":
+                self.next()
+                pk, pv, _ = self.next()
+                if pk != "payload" or "|" not in pv:
+                    self.fail("query expression payload expected")
+                ftxt, ident = pv.rsplit("|", 1)
+                ft = tokenize(ftxt, self.k)
+                if len(ft) != 1 or ft[0][0] not in ("field", "word"):
+                    self.fail(f"bad field in query expression {pv!r}")
+                return F.a_query(ft[0][1], ident)
             if v == "KW":
                 self.next()
                 return F.a_str(None, False, self.string())
